@@ -158,7 +158,12 @@ def gen_run_cases(rng, quick):
             for _ in range(rng.choice([0, 1, 1, 2])):
                 l2 = rng.choice([None, NAME_CASINGS[rng.randrange(4)] + b': ' + rng.choice([b'Basic ' + CODE, b'Basic zzz'])])
                 s2 = P.mk_request(rng, method=rng.choice([b'GET', b'POST', b'HEAD']), auth_line=l2)
-                steps.append(['client', P.wire(s2), s2])
+                if rng.random() < 0.25:
+                    # two requests back to back in one piece (on_client_data loops over the remainder since e222aa4)
+                    s3 = P.mk_request(rng, method=b'GET', auth_line=rng.choice([None, b'Proxy-Authorization: Basic ' + CODE]))
+                    steps.append(['client', P.wire(s2) + P.wire(s3), [s2, s3]])
+                else:
+                    steps.append(['client', P.wire(s2), s2])
                 if rng.random() < 0.3:
                     steps.append(['upstream', b'HTTP/1.1 200 OK\r\nContent-Length: 2\r\n\r\nok'])
         else:
